@@ -137,67 +137,119 @@ theorem card_support : ∀ (n x : Nat), ((range n).filter (fun i => x.testBit i 
     · rw [if_pos hb, Finset.card_insert_of_notMem (by simp), card_support n x, if_pos hb]
     · rw [if_neg hb, card_support n x, if_neg hb, Nat.add_zero]
 
-/-- **BCH bound for the regenerated instances**: every non-zero code word has at least `δ` ones -/
-theorem bch_min_distance (c : BchInst) (h : bchOk c = true) (msg : Nat) (h0 : msg ≠ 0) (hm : msg < 2 ^ c.k) :
-    c.delta ≤ weight c.n (encode c.G msg) := by
+/-! ### facts a successful check provides -/
+structure OkFacts (c : BchInst) : Prop where
+  prim : Field18.primCheck c.m c.P = true
+  m2 : 2 ≤ c.m
+  m16 : c.m ≤ 16
+  hn : c.n = 2 ^ c.m - 1
+  hGl : c.G.length = c.k
+  hGlt : ∀ g ∈ c.G, g < 2 ^ c.n
+  hunit : unitRows c.G c.R = true
+  hg0 : 0 < c.gpoly
+  hrows : ∀ g ∈ c.G, Poly2.mod g c.gpoly = 0
+  hroots : ∀ j ∈ List.range' 1 (c.delta - 1), GF2m.evalAt c.P c.gpoly (GF2m.fpow c.P 2 j) = 0
+
+theorem facts_of_ok (c : BchInst) (h : bchOk c = true) : OkFacts c := by
   unfold bchOk at h
   simp only [Bool.and_eq_true, decide_eq_true_eq, beq_iff_eq, List.all_eq_true] at h
   obtain ⟨⟨⟨⟨⟨⟨⟨⟨⟨hprim, hm2⟩, hm16⟩, hn⟩, hGl⟩, hGlt⟩, hunit⟩, hg0⟩, hrows⟩, hroots⟩ := h
-  have hmem : c.m ∈ List.range' 1 16 := by
-    simp only [List.mem_range'_1]; omega
-  have hP : bitLen c.P = c.m + 1 := by
-    unfold Field18.primCheck at hprim
-    simp only [Bool.and_eq_true, beq_iff_eq] at hprim
-    exact hprim.1
-  have : Good c.P := Field18.good_of_check (by omega) hP
-  have hx2 : Nat.size 2 < Nat.size c.P := (Field18.short_iff hP).mpr (by
+  exact ⟨hprim, hm2, hm16, hn, hGl, fun g hg => by simpa using hGlt g hg, hunit, hg0, hrows, hroots⟩
+
+theorem OkFacts.hP {c : BchInst} (f : OkFacts c) : bitLen c.P = c.m + 1 := by
+  have := f.prim
+  unfold Field18.primCheck at this
+  simp only [Bool.and_eq_true, beq_iff_eq] at this
+  exact this.1
+
+theorem OkFacts.good {c : BchInst} (f : OkFacts c) : Good c.P := Field18.good_of_check (by have := f.m2; omega) f.hP
+
+theorem OkFacts.two_short {c : BchInst} (f : OkFacts c) : Nat.size 2 < Nat.size c.P :=
+  (Field18.short_iff f.hP).mpr (by
     calc 2 = 2 ^ 1 := rfl
-      _ < 2 ^ c.m := Nat.pow_lt_pow_right (by decide) (by omega))
-  let α : Elt c.P := ⟨2, hx2⟩
-  have hord : orderOf α = 2 ^ c.m - 1 := Field18.order_of_check hmem hm2 hprim hP α rfl
+      _ < 2 ^ c.m := Nat.pow_lt_pow_right (by decide) (by have := f.m2; omega))
+
+/-- the class of `X` -/
+def alpha {c : BchInst} (f : OkFacts c) : Elt c.P := ⟨2, f.two_short⟩
+
+theorem OkFacts.order {c : BchInst} (f : OkFacts c) [Good c.P] : orderOf (alpha f) = c.n := by
+  have hmem : c.m ∈ List.range' 1 16 := by
+    simp only [List.mem_range'_1]; have := f.m2; have := f.m16; omega
+  rw [f.hn]
+  exact Field18.order_of_check hmem f.m2 f.prim f.hP (alpha f) rfl
+
+theorem OkFacts.noZeroDivisors {c : BchInst} (f : OkFacts c) [Good c.P] : NoZeroDivisors (Elt c.P) := by
+  have hm2 := f.m2
   have hN : 0 < 2 ^ c.m - 1 := by
     have : 2 ^ 2 ≤ 2 ^ c.m := Nat.pow_le_pow_right (by decide) hm2
     omega
   have hcard : Fintype.card (Elt c.P) = (2 ^ c.m - 1) + 1 := by
-    rw [card_elt, ← bitLen_eq_size, hP]
+    rw [card_elt, ← bitLen_eq_size, f.hP]
     have : 0 < 2 ^ c.m := Nat.two_pow_pos c.m
     simp only [Nat.add_sub_cancel]; omega
-  have : NoZeroDivisors (Elt c.P) := ⟨by
+  have hord := f.order
+  rw [f.hn] at hord
+  exact ⟨by
     intro a b hab
     by_contra hne
     push Not at hne
-    have hinv := Prim.inverse_exists α (2 ^ c.m - 1) hN hcard hord a hne.1
+    have hinv := Prim.inverse_exists (alpha f) (2 ^ c.m - 1) hN hcard hord a hne.1
     have : b = 0 := by
       calc b = (a * a ^ (2 ^ c.m - 1 - 1)) * b := by rw [hinv, one_mul]
         _ = a ^ (2 ^ c.m - 1 - 1) * (a * b) := by rw [mul_comm a, mul_assoc]
         _ = 0 := by rw [hab, mul_zero]
     exact hne.2 this⟩
-  have : IsDomain (Elt c.P) := NoZeroDivisors.to_isDomain _
-  set cw := encode c.G msg with hcw
-  have hcwlt : cw < 2 ^ c.n := encodeFrom_lt c.G 0 msg c.n (fun g hg => by simpa using hGlt g hg)
-  have hcw0 : cw ≠ 0 := by
-    intro hz
-    have := roundtrip c.G c.R hunit msg (by rwa [hGl])
-    rw [← hcw, hz, encode_zero] at this
-    exact h0 this.symm
-  have hdvd : toPoly c.gpoly ∣ toPoly cw := by
+
+theorem OkFacts.codeword_lt {c : BchInst} (f : OkFacts c) (msg : Nat) : encode c.G msg < 2 ^ c.n :=
+  encodeFrom_lt c.G 0 msg c.n f.hGlt
+
+theorem OkFacts.codeword_ne_zero {c : BchInst} (f : OkFacts c) (msg : Nat) (h0 : msg ≠ 0) (hm : msg < 2 ^ c.k) :
+    encode c.G msg ≠ 0 := by
+  intro hz
+  have := roundtrip c.G c.R f.hunit msg (by rwa [f.hGl])
+  rw [hz, encode_zero] at this
+  exact h0 this.symm
+
+/-- every code word vanishes at `α, α², …, α^(δ-1)` -/
+theorem OkFacts.codeword_roots {c : BchInst} (f : OkFacts c) [Good c.P] (msg j : Nat) (h1 : 1 ≤ j) (h2 : j < c.delta) :
+    bitSum (alpha f ^ j) (encode c.G msg) c.n = 0 := by
+  have hdvd : toPoly c.gpoly ∣ toPoly (encode c.G msg) := by
     apply dvd_encodeFrom
     intro r hr
-    have := hrows r hr
+    have := f.hrows r hr
     rw [Bridge.mod_eq_pmod] at this
-    have sp := (DM.pmod_spec r c.gpoly hg0).2
+    have sp := (DM.pmod_spec r c.gpoly f.hg0).2
     rw [this, Nat.xor_zero] at sp
     exact dvd_of_mult _ _ sp
-  have hroot : ∀ j, 1 ≤ j → j < c.delta → bitSum (α ^ j) cw c.n = 0 := by
-    intro j h1 h2
-    have hev := hroots j (by simp only [List.mem_range'_1]; omega)
-    have e : GF2m.fpow c.P 2 j = (α ^ j).val := Field18.fpow_model_eq α j
-    rw [e, evalAt_eq] at hev
-    have hg : phi (α ^ j) (toPoly c.gpoly) = 0 := by
-      rw [phi_toPoly (α ^ j) c.gpoly (bitLen c.gpoly) (by rw [bitLen_eq_size]; exact Nat.lt_size_self _)]
-      exact Subtype.ext hev
-    obtain ⟨q, hq⟩ := hdvd
-    rw [← phi_toPoly (α ^ j) cw c.n hcwlt, hq, map_mul, hg, zero_mul]
+  have hev := f.hroots j (by simp only [List.mem_range'_1]; omega)
+  have e : GF2m.fpow c.P 2 j = (alpha f ^ j).val := Field18.fpow_model_eq (alpha f) j
+  rw [e, evalAt_eq] at hev
+  have hg : phi (alpha f ^ j) (toPoly c.gpoly) = 0 := by
+    rw [phi_toPoly (alpha f ^ j) c.gpoly (bitLen c.gpoly) (by rw [bitLen_eq_size]; exact Nat.lt_size_self _)]
+    exact Subtype.ext hev
+  obtain ⟨q, hq⟩ := hdvd
+  rw [← phi_toPoly (alpha f ^ j) _ c.n (f.codeword_lt msg), hq, map_mul, hg, zero_mul]
+
+/-- the same at the level of the model's own `evaluate`: `c(α^j) = 0` -/
+theorem OkFacts.codeword_evalAt {c : BchInst} (f : OkFacts c) (msg j : Nat) (h1 : 1 ≤ j) (h2 : j < c.delta) :
+    GF2m.evalAt c.P (encode c.G msg) (GF2m.fpow c.P 2 j) = 0 := by
+  have := f.good
+  have e : GF2m.fpow c.P 2 j = (alpha f ^ j).val := Field18.fpow_model_eq (alpha f) j
+  have hb : bitLen (encode c.G msg) ≤ c.n := by
+    rw [bitLen_eq_size]; exact Nat.size_le.mpr (f.codeword_lt msg)
+  rw [e, evalAt_eq, ← bitSum_extend _ _ c.n hb, f.codeword_roots msg j h1 h2]
+  rfl
+
+/-- **BCH bound for the regenerated instances**: every non-zero code word has at least `δ` ones -/
+theorem bch_min_distance (c : BchInst) (h : bchOk c = true) (msg : Nat) (h0 : msg ≠ 0) (hm : msg < 2 ^ c.k) :
+    c.delta ≤ weight c.n (encode c.G msg) := by
+  have f := facts_of_ok c h
+  have := f.good
+  have := f.noZeroDivisors
+  have : IsDomain (Elt c.P) := NoZeroDivisors.to_isDomain _
+  set cw := encode c.G msg with hcw
+  have hcwlt : cw < 2 ^ c.n := f.codeword_lt msg
+  have hcw0 : cw ≠ 0 := f.codeword_ne_zero msg h0 hm
   set S := (range c.n).filter (fun i => cw.testBit i = true) with hS
   have hSne : S.Nonempty := by
     obtain ⟨i, hi⟩ := Nat.exists_testBit_of_ne_zero hcw0
@@ -206,16 +258,16 @@ theorem bch_min_distance (c : BchInst) (h : bchOk c = true) (msg : Nat) (h0 : ms
     have : cw < 2 ^ i := lt_of_lt_of_le hcwlt (Nat.pow_le_pow_right (by decide) (by omega))
     rw [Nat.testBit_lt_two_pow this] at hi
     cases hi
-  have hsum : ∀ j, 1 ≤ j → j < c.delta → ∑ i ∈ S, (α ^ i) ^ j = 0 := by
+  have hsum : ∀ j, 1 ≤ j → j < c.delta → ∑ i ∈ S, (alpha f ^ i) ^ j = 0 := by
     intro j h1 h2
-    have := hroot j h1 h2
+    have := f.codeword_roots msg j h1 h2
     unfold bitSum at this
     rw [← Finset.sum_filter] at this
     rw [← this]
     apply Finset.sum_congr rfl
     intro i _
     rw [← pow_mul, ← pow_mul, mul_comm]
-  have := bch_bound α c.n c.delta (by rw [hord, hn]) S (fun i hi => Finset.mem_range.mp (Finset.mem_filter.mp hi).1) hSne hsum
+  have := bch_bound (alpha f) c.n c.delta f.order S (fun i hi => Finset.mem_range.mp (Finset.mem_filter.mp hi).1) hSne hsum
   rwa [hS, card_support] at this
 
 end BCHBound
